@@ -569,6 +569,32 @@ def direct_oracles(case, res, hist, code_nmix, plan=None):
                     out.append(("finding:implicit-mcd-closed-inventory-drift", bad[:3]))
                 else:
                     out.append(classify_conservation(bad, "oracle-inventory"))
+    # (2b) constant-concentration boundary, diffusion only, one sub-mix per step: the inventory changes exactly by the
+    #      exchange with the boundary solutions, computed from the code's own mixing map (constant_boundary_mix_balance):
+    #      inv(t) = inv(t-1) + m[1]*(c0 - c1(t-1)) + m1[n]*(c_{n+1} - c_n(t-1))
+    if plain and su["flow"] == 0 and code_nmix == 1 and (su["bf"] == 1 or su["bl"] == 1) and equal and res.get("mix"):
+        cm = res["mix"]["cells"]
+        if sorted(cm) == mobile and all(abs(cm[i][i + 1] - cm[i + 1][i]) <= 1e-13 * abs(cm[i][i + 1]) for i in range(1, n)) \
+                and all(c in by.get(0, {}) for c in mobile):
+            a, b = cm[1][0], cm[n][n + 1]
+            bad = []
+            for q in QUANT:
+                x0 = by[0][0][-1][q] if 0 in by[0] else 0.0
+                xl = by[0][n + 1][-1][q] if (n + 1) in by[0] else 0.0
+                sc = scale_of(q, by[0]) * (n if q == "cb" else 1) or 1e-300
+                sc = max(sc, abs(sum(by[0][c][-1][q] for c in mobile)))
+                for t in range(1, shifts + 1):
+                    if t not in by or any(c not in by[t] for c in mobile) or any(c not in by[t - 1] for c in mobile):
+                        break
+                    prev = sum(by[t - 1][c][-1][q] for c in mobile)
+                    exp = prev + a * (x0 - by[t - 1][1][-1][q]) + b * (xl - by[t - 1][n][-1][q])
+                    inv = sum(by[t][c][-1][q] for c in mobile)
+                    if abs(inv - exp) > TOL * sc:
+                        bad.append((q, t, exp, inv, (inv - exp) / sc, 2))
+                        break
+            hist["oracle_constant_boundary_balance"] += 1
+            if bad:
+                out.append(classify_conservation(bad, "oracle-boundary-balance"))
     # (3) pure advection: exact shift
     if plain and su["flow"] != 0 and code_nmix == 0:
         bad = oracle_shift(by, n, su["flow"], shifts, allq)
@@ -1188,12 +1214,15 @@ MANIFEST = dict(
          "repaired stale-dav defect). Correspondence on every run: reader set-up mirror (bitwise), nmix and every mixing "
          "factor read mid-run from Dispersion_mix_map (model exact over the rationals of the decimal inputs, compared as "
          "doubles at 1e-13 relative), every cell x step x quantity (element moles, total H, total O, charge balance) vs "
-         "transportRun at 1e-9 of the column scale; corpus of past findings replayed first. Obligations over generated data "
+         "transportRun at 1e-9 of the column scale; stagnant layers: Rxn_mix_map read mid-run vs stagWeights (water masses from the "
+         "engine's own step-0 rows, explicit MIX fractions from the input text) and every mobile + immobile cell vs "
+         "transportStagStepWith; reactive solids: punched inventories tied to the stored entities after the run (FINAL lines, "
+         "phase formula from the database text); corpus of past findings replayed first. Obligations over generated data "
          "only: the conservation / flux-balance / range oracles for multi_d / implicit / stagnant / reactive solids.",
     note="Trusted: Lean kernel; g++ harness with friend access and SetBasicCallback; Python reader mirror (short lists "
          "repeated, closed->flux with flow) and tolerance logic; phreeqc.dat speciation is not modelled (only the linear "
          "transport of totals; 'speciation conserves the input totals' is observed, not proved). Partial: no model of "
-         "multi_D / diffuse_implicit / mix_stag / heat transport (oracles only, runs with ERROR are counted not judged); "
+         "multi_D / diffuse_implicit / heat transport / more than one stagnant layer (oracles only, runs with ERROR are counted not judged); "
          "double rounding of floor(1.5*maxmix) at exact integers is accepted either way (counted as nmix_rounding_boundary); "
          "range oracle is evaluated on concentrations with a 1e-9 slack. Known finding implicit-mcd-closed-inventory-drift: "
          "implicit multicomponent diffusion drifts ~1e-13 mol per cell/element/sub-step (only that small drift is excused).",
